@@ -361,6 +361,211 @@ Proof.
     eapply bsE_seq; [eapply bsE_if; [evk; reflexivity|reflexivity|]; eapply bsE_expr; evk; reflexivity|].
     eapply bsE_return. evk. reflexivity.
 Qed.
+
+(* ---- the interface to the property loop (ImpFactsCsReadProps.v): what the rest of the function does behind a positive count ---- *)
+Fixpoint props_nobit (n : nat) (s : list Z) : Prop :=
+  match n with
+  | O => True
+  | S n' => match read_string false None s with
+            | Ok (_, s1) => (forall t s2, s1 <> 3 :: t :: s2) /\ match Va.va_read false None s1 with Ok (_, s2) => props_nobit n' s2 | Err _ => True end
+            | Err _ => True
+            end
+  end.
+Fixpoint props_end (n : nat) (s : list Z) : option (list Z) :=
+  match n with
+  | O => Some s
+  | S n' => match read_string false None s with
+            | Ok (_, s1) => match Va.va_read false None s1 with Ok (_, s2) => props_end n' s2 | Err _ => None end
+            | Err _ => None
+            end
+  end.
+(* everything behind the caller's heap is released by one sbdf_cs_destroy on the slice (which is the first new block) *)
+Definition releasable (h h' : heap) (m' : list Z) : Prop :=
+  exists hnew, h' = h ++ hnew /\ (1 <= List.length hnew)%nat /\
+    forall kk sxx, bsE prog_env (fbody prog_sbdf_cs_destroy) (fr [("cs"%string, VCell (List.length h) 0); ("i"%string, VUndef)] bv kk sxx h' m' o)
+                     (OReturn (VInt 0) (fr [("cs"%string, VCell (List.length h) 0); ("i"%string, VUndef)] bv kk sxx (h ++ nones (List.length hnew)) m' o)).
+Definition cs_props_seq : stmt :=
+  match cs_body with SSeq _ (SSeq _ (SSeq _ (SSeq _ (SSeq _ (SSeq _ (SSeq _ (SSeq _ (SSeq _ (SSeq _ x))))))))) => x | _ => SSkip end.
+Definition s6 (so : val) (h : heap) (v k2 : Z) (s3 : list Z) (blk : list val) (newb : heap) (m2 : list Z) : state :=
+  crf fv ov (Build_crl VUndef (VInt SBDF_OK) VUndef (VCell (List.length h) 0) (VInt v) (VCell (S (List.length h)) 0) VUndef VUndef (VInt 0) so) k2 s3
+      (h ++ Some [VCell (S (List.length h)) 0; VInt 0; VInt 0; VInt 0; VInt 1] :: Some blk :: newb) m2.
+Definition props_spec (so : val) (h : heap) : Prop :=
+  forall k2 s3 m2 blk newb v,
+    (forall hp : heap, List.length hp = S (List.length h) -> va_rel m2 (hp ++ Some blk :: newb) (S (List.length h)) (hp ++ None :: nones (List.length newb))) ->
+    0 < v <= int_max -> Forall byte s3 -> props_nobit (Z.to_nat v) s3 ->
+    exists st l' k' s' h' m',
+      (exists sB, bsE prog_env cs_props_seq (s6 so h v k2 s3 blk newb m2) (OBreak sB) /\ bsE prog_env cs_tail sB (OReturn (VInt st) (crf fv ov l' k' s' h' m'))) /\
+      prefix_of m2 m' /\
+      ((st = SBDF_OK /\ c_so l' = VCell (List.length h) 0 /\ releasable h h' m' /\ props_end (Z.to_nat v) s3 = Some s')
+       \/ (st < 0 /\ c_so l' = so /\ exists j, h' = h ++ nones j)).
+
+Lemma cs_read_gen so k sx h m : Forall byte sx ->
+  (forall s1, sec_expect SBDF_COLUMNSLICE_SECTIONID sx = Ok (tt, s1) -> forall t s2, s1 <> 3 :: t :: s2) ->
+  (forall s1 va s2 v s3, sec_expect SBDF_COLUMNSLICE_SECTIONID sx = Ok (tt, s1) -> Va.va_read false None s1 = Ok (va, s2) -> read_int32 false s2 = Ok (v, s3) -> props_nobit (Z.to_nat v) s3) ->
+  props_spec so h ->
+  let L := List.length h in
+  exists st l' k' s' h' m',
+    bsE prog_env (fbody prog_sbdf_cs_read) (crf fv ov (crl0 so) k sx h m) (OReturn (VInt st) (crf fv ov l' k' s' h' m')) /\ prefix_of m m' /\
+    ((st = SBDF_OK /\ c_so l' = VCell L 0 /\ releasable h h' m' /\
+        exists s1 va s2 v s3, sec_expect SBDF_COLUMNSLICE_SECTIONID sx = Ok (tt, s1) /\ Va.va_read false None s1 = Ok (va, s2) /\ read_int32 false s2 = Ok (v, s3) /\ 0 <= v /\
+                              props_end (Z.to_nat v) s3 = Some s')
+     \/ (st < 0 /\ c_so l' = so /\ exists j, h' = h ++ nones j)).
+Proof.
+  intros Hs NB NBP PROPS L.
+  pose proof (sec_expect_bs2 fv SBDF_COLUMNSLICE_SECTIONID VUndef VUndef k sx h m I Hs ltac:(unfold SBDF_COLUMNSLICE_SECTIONID, int_min, int_max; lia)) as SE.
+  destruct (sec_expect SBDF_COLUMNSLICE_SECTIONID sx) as [[[] s1]|st0] eqn:ESE.
+  2: { (* no column slice section here *)
+    destruct SE as (e' & v' & s' & SE).
+    assert (Hneg : st0 < 0) by (apply (neg_sec_expect SBDF_COLUMNSLICE_SECTIONID sx st0 ESE)).
+    exists st0. eexists (Build_crl _ _ _ _ _ _ _ _ _ _). do 4 eexists. split; [|split; [exists []; now rewrite app_nil_r|right; split; [exact Hneg|split; [reflexivity|exists 0%nat; cbn; now rewrite app_nil_r]]]].
+    apply cs_read_ret. unfold cs_body. cbn [fbody prog_sbdf_cs_read]. uncr.
+    eapply bsE_seq; [eapply bsE_decl0; evk; reflexivity|].
+    eapply bsE_seq; [eapply bsE_seq; [eapply bsE_decl0; evk; reflexivity|eapply bsE_seq; [eapply bsE_decl0; evk; reflexivity|eapply bsE_decl0; evk; reflexivity]]|].
+    eapply bsE_seq; [eapply bsE_if; [evk; reflexivity|reflexivity|apply bsE_skip]|].
+    eapply bsE_seq_ret. eapply bsE_seq; [eapply bsE_call; [reflexivity|evk; reflexivity|reflexivity|exact SE|unfold se2, fr; evk; reflexivity]|].
+    eapply bsE_if; [evk; reflexivity|cbn [truth]; replace (st0 =? 0) with false by lia; reflexivity|]. eapply bsE_return. evk. reflexivity. }
+  destruct SE as (e' & v' & SE).
+  assert (Hs1 : Forall byte s1) by (apply (shr_sec_expect SBDF_COLUMNSLICE_SECTIONID sx tt s1 Hs ESE)).
+  (* up to the allocation of the slice *)
+  assert (HEAD : forall X oo, bsE prog_env X (crf fv ov (Build_crl VUndef (VInt SBDF_OK) VUndef VUndef VUndef VUndef VUndef VUndef (VInt 0) so) k s1 h m) oo ->
+     bsE prog_env (SSeq (SDecl "t" None) (SSeq (SSeq (SDecl "error" None) (SSeq (SDecl "v" None) (SDecl "i" None))) (SSeq (SIf (ELNot (EVar "out")) (SReturn (EBin Sub (EConst 0) (EConst (1)))) SSkip)
+        (SSeq (SSeq (SCall (Some "error") "sbdf_sec_expect" [(AVal (EVar "f")); (AVal (EConst (4)))]) (SIf (EVar "error") (SReturn (EVar "error")) SSkip)) X))))%string
+       (crf fv ov (Build_crl VUndef VUndef VUndef VUndef VUndef VUndef VUndef VUndef (VInt 0) so) k sx h m) oo).
+  { intros X oo B. revert B. uncr. intros B.
+    eapply bsE_seq; [eapply bsE_decl0; evk; reflexivity|].
+    eapply bsE_seq; [eapply bsE_seq; [eapply bsE_decl0; evk; reflexivity|eapply bsE_seq; [eapply bsE_decl0; evk; reflexivity|eapply bsE_decl0; evk; reflexivity]]|].
+    eapply bsE_seq; [eapply bsE_if; [evk; reflexivity|reflexivity|apply bsE_skip]|].
+    eapply bsE_seq; [eapply bsE_seq; [eapply bsE_call; [reflexivity|evk; reflexivity|reflexivity|exact SE|unfold se2, fr; evk; reflexivity]|eapply bsE_if; [evk; reflexivity|reflexivity|apply bsE_skip]]|].
+    exact B. }
+  destruct (k =? 0) eqn:Ek0.
+  { (* the slice cannot be allocated *)
+    assert (k = 0) by lia. subst k.
+    exists SBDF_ERROR_OUT_OF_MEMORY. eexists (Build_crl _ _ _ _ _ _ _ _ _ _). do 4 eexists. split; [|split; [exists []; now rewrite app_nil_r|right; split; [reflexivity|split; [reflexivity|exists 0%nat; cbn; now rewrite app_nil_r]]]].
+    apply cs_read_ret. unfold cs_body. cbn [fbody prog_sbdf_cs_read]. apply HEAD. uncr.
+    eapply bsE_seq; [eapply bsE_expr; evk; chk7; evk; reflexivity|].
+    eapply bsE_seq_ret. eapply bsE_if; [evk; reflexivity|reflexivity|]. eapply bsE_return. evk. chk7. reflexivity. }
+  assert (Hk : k <> 0) by lia.
+  set (h0 := h ++ [Some [VInt 0; VInt 0; VInt 0; VInt 0; VInt 1]]).
+  assert (HL0 : List.length h0 = S L) by (unfold h0; rewrite app_length; cbn; lia).
+  destruct (va_read_bs rf ROut fo 0 (dec k) s1 h0 m VNull Hs1 (NB s1 eq_refl)) as (st1 & e1 & sh1 & k2 & s2 & h2 & m2 & BV & Pf1 & Out1 & PP1 & MT1).
+  rewrite HL0 in Out1.
+  (* the allocation and the owned flag *)
+  assert (PRE : forall Y oo, bsE prog_env Y (crf fv ov (Build_crl VUndef (VInt SBDF_OK) VUndef (VCell L 0) VUndef VUndef VUndef VUndef (VInt 0) so) (dec k) s1 h0 m) oo ->
+     bsE prog_env (SSeq (SExpr (EAssign "t" (ECalloc (EConst 5)))) (SSeq (SIf (ELNot (EVar "t")) (SReturn (EBin Sub (EConst 0) (EConst (2)))) SSkip) (SSeq (SExpr (ECellStore (EVar "t") (EConst 4) (EConst (1)))) Y)))%string
+       (crf fv ov (Build_crl VUndef (VInt SBDF_OK) VUndef VUndef VUndef VUndef VUndef VUndef (VInt 0) so) k s1 h m) oo).
+  { intros Y oo B. revert B. uncr. intros B.
+    eapply bsE_seq; [eapply bsE_expr; evk; chk7; evk; rewrite Ek0; evk; reflexivity|]. cbn [inb outb].
+    change (repeat (VInt 0) (Z.to_nat 5)) with [VInt 0; VInt 0; VInt 0; VInt 0; VInt 0]. fold (dec k).
+    eapply bsE_seq; [eapply bsE_if; [evk; reflexivity|reflexivity|apply bsE_skip]|].
+    eapply bsE_seq; [eapply bsE_expr; evk; chk7; evk; erewrite cell_set_new; [|lia|reflexivity]; evk; reflexivity|].
+    exact B. }
+  (* the values *)
+  assert (Htl : exists tl, h2 = h0 ++ tl) by (destruct Out1 as [(_ & _ & _ & blk & newb & -> & _)|(_ & _ & j & ->)]; eexists; reflexivity).
+  destruct Htl as (tl & Htl).
+  assert (So1 : storable sh1 = true) by (destruct Out1 as [(_ & -> & _)|(_ & -> & _)]; reflexivity).
+  assert (T3 : bsE prog_env (SSeq (SExpr (EAssign "$a1" (ECellLoad (EVar "t") (EConst 0) true))) (SSeq (SCall (Some "error") "sbdf_va_read" [(AVal (EVar "f")); (AAddr "$a1")]) (SExpr (ECellStore (EVar "t") (EConst 0) (EVar "$a1")))))%string
+                 (crf fv ov (Build_crl VUndef (VInt SBDF_OK) VUndef (VCell L 0) VUndef VUndef VUndef VUndef (VInt 0) so) (dec k) s1 h0 m)
+                 (ONormal (crf fv ov (Build_crl VUndef (VInt st1) VUndef (VCell L 0) VUndef sh1 VUndef VUndef (VInt 0) so) k2 s2 (h ++ Some [sh1; VInt 0; VInt 0; VInt 0; VInt 1] :: tl) m2))).
+  { revert BV. rewrite Htl. unfold vrd. uncr. intros BV.
+    eapply bsE_seq; [eapply bsE_expr; evk; chk7; evk; unfold h0; change (h ++ [Some [VInt 0; VInt 0; VInt 0; VInt 0; VInt 1]]) with (h ++ Some [VInt 0; VInt 0; VInt 0; VInt 0; VInt 1] :: []);
+                     fold L; rewrite cell_get_mid; evk; reflexivity|].
+    eapply bsE_seq; [eapply bsE_call; [reflexivity|evk; reflexivity|reflexivity|exact BV|evk; reflexivity]|].
+    eapply bsE_expr. evk. chk7. evk. unfold h0. rewrite <- app_assoc. cbn [app]. fold L.
+    destruct sh1; try discriminate So1; evk; (erewrite cell_set_mid; [|lia|reflexivity]); evk; reflexivity. }
+  assert (NTH : forall (blk : list val) (rest : heap), nth_error (h ++ Some blk :: rest) L = Some (Some blk)) by (intros; unfold L; rewrite nth_error_app2 by lia; rewrite Nat.sub_diag; reflexivity).
+  assert (KL : forall (blk : list val) (rest : heap), kill L (h ++ Some blk :: rest) = h ++ None :: rest) by (intros; unfold kill, L; rewrite set_nth_v_app; reflexivity).
+  destruct Out1 as [(-> & -> & Hs2 & blk & newb & Hh2 & VR)|(Hneg1 & -> & j & Hh2)].
+  2: { (* the values could not be read: the slice is released again *)
+    assert (tl = nones j) by (rewrite Hh2 in Htl; apply app_inv_head in Htl; congruence). subst tl.
+    set (hX := h ++ Some [VNull; VInt 0; VInt 0; VInt 0; VInt 1] :: nones j) in *.
+    set (h3 := h ++ Some [VNull; VInt 0; VInt 0; VInt 0; VInt 0] :: nones j).
+    pose proof (cs_destroy_fresh_bs k2 s2 m2 hX L VNull hX h3 VUndef (NTH _ _) ltac:(left; split; reflexivity) eq_refl
+                  ltac:(unfold hX, h3, L; erewrite cell_set_mid; [reflexivity|lia|reflexivity]) (NTH _ _)) as D.
+    unfold h3 in D. rewrite KL in D. unfold fr in D. cbn [app] in D.
+    exists st1. eexists (Build_crl _ _ _ _ _ _ _ _ _ _). do 4 eexists. split; [|split; [exact Pf1|right; split; [exact Hneg1|split; [reflexivity|exists (S j); reflexivity]]]].
+    eapply cs_read_brk.
+    - unfold cs_body. cbn [fbody prog_sbdf_cs_read]. apply HEAD. apply PRE.
+      eapply bsE_seq_brk. eapply bsE_seq; [exact T3|]. uncr. eapply bsE_if; [evk; reflexivity|cbn [truth]; replace (st1 =? 0) with false by lia; reflexivity|apply bsE_break].
+    - unfold cs_tail. cbn [fbody prog_sbdf_cs_read]. uncr.
+      eapply bsE_seq; [eapply bsE_if; [evk; reflexivity|cbn [truth]; replace (st1 =? 0) with false by lia; reflexivity|]; eapply bsE_call; [reflexivity|evk; reflexivity|reflexivity|evk; exact D|evk; reflexivity]|].
+      eapply bsE_return. evk. reflexivity. }
+  assert (tl = Some blk :: newb) by (rewrite Hh2 in Htl; apply app_inv_head in Htl; congruence). subst tl. clear Htl Hh2.
+  assert (MV : exists va, Va.va_read false None s1 = Ok (va, s2)) by (specialize (PP1 eq_refl); destruct (Va.va_read false None s1) as [[va sM]|]; [exists va; rewrite PP1; reflexivity|contradiction]).
+  destruct MV as (va & MV).
+  set (slice := [VCell (S L) 0; VInt 0; VInt 0; VInt 0; VInt 1]) in *.
+  set (hY := h ++ Some slice :: Some blk :: newb) in *.
+  set (hpY := h ++ [Some slice]).
+  assert (HpY : List.length hpY = S L) by (unfold hpY; rewrite app_length; cbn; lia).
+  assert (HYp : hY = hpY ++ Some blk :: newb) by (unfold hY, hpY; rewrite <- app_assoc; reflexivity).
+  (* releasing the slice with its values *)
+  assert (DY : forall kk sxx, bsE prog_env (fbody prog_sbdf_cs_destroy) (fr [("cs"%string, VCell L 0); ("i"%string, VUndef)] bv kk sxx hY m2 o)
+                 (OReturn (VInt 0) (fr [("cs"%string, VCell L 0); ("i"%string, VUndef)] bv kk sxx (h ++ nones (S (S (List.length newb)))) m2 o))).
+  { intros kk sxx.
+    set (h1 := h ++ Some slice :: None :: nones (List.length newb)).
+    set (h3 := h ++ Some [VCell (S L) 0; VInt 0; VInt 0; VInt 0; VInt 0] :: None :: nones (List.length newb)).
+    pose proof (cs_destroy_fresh_bs kk sxx m2 hY L (VCell (S L) 0) h1 h3 VUndef (NTH _ _)
+                  ltac:(right; exists (S L); split; [reflexivity|rewrite HYp; unfold h1; replace (h ++ Some slice :: None :: nones (List.length newb)) with (hpY ++ None :: nones (List.length newb)) by (unfold hpY; rewrite <- app_assoc; reflexivity); exact (VR hpY HpY)])
+                  ltac:(unfold h1, hY; rewrite !NTH; reflexivity)
+                  ltac:(unfold h1, h3, L, slice; erewrite cell_set_mid; [reflexivity|lia|reflexivity]) (NTH _ _)) as D.
+    unfold h3 in D. rewrite KL in D. exact D. }
+  pose proof (read_int32_bs2 hY fv (VPtr ROut 0) VUndef bv k2 s2 m2 o I I Hs2) as R.
+  destruct (read_int32 false s2) as [[v s3]|e] eqn:ER.
+  2: { (* the property count cannot be read *)
+    destruct R as (c' & s' & R). pose proof (read_int32_err s2 e ER). subst e.
+    specialize (DY k2 s'). unfold fr in DY. cbn [app] in DY.
+    exists SBDF_ERROR_IO. eexists (Build_crl _ _ _ _ _ _ _ _ _ _). do 4 eexists. split; [|split; [exact Pf1|right; split; [reflexivity|split; [reflexivity|eexists; reflexivity]]]].
+    eapply cs_read_brk.
+    - unfold cs_body. cbn [fbody prog_sbdf_cs_read]. apply HEAD. apply PRE.
+      eapply bsE_seq; [eapply bsE_seq; [exact T3|uncr; eapply bsE_if; [evk; reflexivity|reflexivity|apply bsE_skip]]|].
+      eapply bsE_seq_brk. uncr. eapply bsE_seq; [eapply bsE_call; [reflexivity|evk; reflexivity|reflexivity|exact R|unfold ri2; evk; reflexivity]|].
+      eapply bsE_if; [evk; reflexivity|reflexivity|apply bsE_break].
+    - unfold cs_tail. cbn [fbody prog_sbdf_cs_read]. uncr.
+      eapply bsE_seq; [eapply bsE_if; [evk; reflexivity|reflexivity|]; eapply bsE_call; [reflexivity|evk; reflexivity|reflexivity|evk; exact DY|evk; reflexivity]|].
+      eapply bsE_return. evk. reflexivity. }
+  destruct (read_int32_range s2 v s3 Hs2 ER) as (Hv & _).
+  destruct (v <? 0) eqn:Eneg.
+  { (* a negative property count *)
+    specialize (DY k2 s3). unfold fr in DY. cbn [app] in DY.
+    exists SBDF_ERROR_INVALID_SIZE. eexists (Build_crl _ _ _ _ _ _ _ _ _ _). do 4 eexists. split; [|split; [exact Pf1|right; split; [reflexivity|split; [reflexivity|eexists; reflexivity]]]].
+    eapply cs_read_brk.
+    - unfold cs_body. cbn [fbody prog_sbdf_cs_read]. apply HEAD. apply PRE.
+      eapply bsE_seq; [eapply bsE_seq; [exact T3|uncr; eapply bsE_if; [evk; reflexivity|reflexivity|apply bsE_skip]]|].
+      uncr. eapply bsE_seq; [eapply bsE_seq; [eapply bsE_call; [reflexivity|evk; reflexivity|reflexivity|exact R|unfold ri2; evk; reflexivity]|eapply bsE_if; [evk; reflexivity|reflexivity|apply bsE_skip]]|].
+      eapply bsE_seq_brk. eapply bsE_if; [evk; chk7; evk; rewrite Eneg; reflexivity|reflexivity|].
+      eapply bsE_seq; [eapply bsE_expr; evk; chk7; evk; reflexivity|apply bsE_break].
+    - unfold cs_tail. cbn [fbody prog_sbdf_cs_read]. uncr.
+      eapply bsE_seq; [eapply bsE_if; [evk; reflexivity|reflexivity|]; eapply bsE_call; [reflexivity|evk; reflexivity|reflexivity|evk; exact DY|evk; reflexivity]|].
+      eapply bsE_return. evk. reflexivity. }
+  destruct (v =? 0) eqn:Ez.
+  { (* no properties: the slice is handed out *)
+  assert (v = 0) by lia. subst v.
+  exists SBDF_OK. eexists (Build_crl _ _ _ _ _ _ _ _ _ _). do 4 eexists. split; [|split; [exact Pf1|left; split; [reflexivity|split; [reflexivity|]]]].
+  2: { split.
+       - exists (Some slice :: Some blk :: newb). split; [reflexivity|]. split; [cbn [List.length]; lia|]. intros kk sxx. apply DY.
+       - exists s1, va, s2, 0, s3. split; [reflexivity|]. split; [exact MV|]. split; [exact ER|]. split; [lia|reflexivity]. }
+  eapply cs_read_brk.
+  - unfold cs_body. cbn [fbody prog_sbdf_cs_read]. apply HEAD. apply PRE.
+    eapply bsE_seq; [eapply bsE_seq; [exact T3|uncr; eapply bsE_if; [evk; reflexivity|reflexivity|apply bsE_skip]]|].
+    uncr. eapply bsE_seq; [eapply bsE_seq; [eapply bsE_call; [reflexivity|evk; reflexivity|reflexivity|exact R|unfold ri2; evk; reflexivity]|eapply bsE_if; [evk; reflexivity|reflexivity|apply bsE_skip]]|].
+    eapply bsE_seq; [eapply bsE_if; [evk; chk7; evk; reflexivity|reflexivity|apply bsE_skip]|].
+    eapply bsE_seq; [eapply bsE_if; [evk; chk7; evk; reflexivity|reflexivity|apply bsE_skip]|]. apply bsE_break.
+  - unfold cs_tail. cbn [fbody prog_sbdf_cs_read]. uncr.
+    eapply bsE_seq; [eapply bsE_if; [evk; reflexivity|reflexivity|]; eapply bsE_expr; evk; reflexivity|].
+    eapply bsE_return. evk. reflexivity. }
+  (* properties: the loop *)
+  destruct (PROPS k2 s3 m2 blk newb v VR ltac:(lia) (read_int32_bytes s2 v s3 Hs2 ER) (NBP s1 va s2 v s3 eq_refl MV ER))
+    as (st & l' & k' & s' & h' & m' & (sB & B1 & B2) & Pf2 & Out).
+  exists st, l', k', s', h', m'. split; [|split].
+  - eapply cs_read_brk; [|exact B2].
+    unfold cs_body. cbn [fbody prog_sbdf_cs_read]. apply HEAD. apply PRE.
+    eapply bsE_seq; [eapply bsE_seq; [exact T3|uncr; eapply bsE_if; [evk; reflexivity|reflexivity|apply bsE_skip]]|].
+    uncr. eapply bsE_seq; [eapply bsE_seq; [eapply bsE_call; [reflexivity|evk; reflexivity|reflexivity|exact R|unfold ri2; evk; reflexivity]|eapply bsE_if; [evk; reflexivity|reflexivity|apply bsE_skip]]|].
+    eapply bsE_seq; [eapply bsE_if; [evk; chk7; evk; rewrite Eneg; reflexivity|reflexivity|apply bsE_skip]|].
+    revert B1. unfold cs_props_seq, cs_body, s6. cbn [fbody prog_sbdf_cs_read]. uncr. fold slice. fold hY. intros B1. exact B1.
+  - destruct Pf1 as (x1 & ->). destruct Pf2 as (x2 & ->). exists (x1 ++ x2). now rewrite app_assoc.
+  - destruct Out as [(-> & Ho & Rl & PE)|(Hn & Ho & Hj)]; [left|right; split; [exact Hn|split; [exact Ho|exact Hj]]].
+    split; [reflexivity|]. split; [exact Ho|]. split; [exact Rl|]. exists s1, va, s2, v, s3. split; [reflexivity|]. split; [exact MV|]. split; [exact ER|]. split; [lia|exact PE].
+Qed.
 End Main.
 
 (* a slice as sbdf_cs_read hands it out without properties is released by one sbdf_cs_destroy: values, then the struct *)
